@@ -18,6 +18,9 @@ checks = {
     text="Every program of a seeded generated corpus plus the shipped sized testsuite/lang and testsuite/math programs is compiled by the real compiler under {prune off/on} x {multiplier threshold default/8/64} x {Yao, GMW}; z3 proves each variant circuit equal to the baseline for ALL inputs (cross-algorithm pairs only where multipliers/dividers are <= 8/10 bits; for shipped programs only same-algorithm prune pairs). Counterexamples are replayed through the real Compute of both variants.",
     ref="DESIGN.md C09", engine="circtv", script="python3-vt",
     note="Trusted base: z3 and the gate-to-term translation. Pairs whose miter does not close within the budget are excluded and listed (reduced bound)."),
+ "C11": dict(cat="other", tech="bounded symbolic execution of go/ssa + SMT (z3): symbolic values, flush placement, buffer positions and read fragmentation",
+    text="The real p2p.Conn code (real buffer sizes, real writer goroutine under a cooperative scheduler) is executed symbolically on four operation families; sent values, flush placement, the write position near the end of the 64 KiB buffer, unread bytes at the end of the 1 MiB read buffer and the size of every transport read are symbolic. Assertions: documented big-endian encoding, received = sent in order, Close delivers everything, counters = bytes moved.",
+    ref="DESIGN.md C11", engine="gosymx"),
  "C07": dict(cat="translation_validation", tech="SMT miter (z3) of the real builders' gate lists against bit-vector reference semantics, all operand values",
     text="Each real builder invocation (operator x operand widths x result width x target x algorithm) is compiled by the real circuits.Compiler and its output is proved equal to the exact function mod 2^wz for ALL operand values by z3 (per-output-bit incremental miter); the width/configuration quantifier is an enumerated, stated family. Counterexamples are replayed through the real Circuit.Compute.",
     ref="DESIGN.md C07", engine="circtv", script="python3-vt",
